@@ -446,7 +446,9 @@ def density_runs(ctx):
         for _ in range(1 if ctx.quick else 5):
             prob = random_problem(rng, n)
             r, eps, limit, _ = rand_params(rng, n)
-            run = SolverRun(prob, r=r, eps=eps, limit=min(limit, 40), m=m, tag=prob.name, full_snap=False)
+            import numpy as _np
+            mm = rng.choice([m, m, _np.int64(m), _np.int32(m), _np.arange(2, 13)[m - 2]])      # the density as a Python or a numpy integer
+            run = SolverRun(prob, r=r, eps=eps, limit=min(limit, 40), m=mm, tag=prob.name, full_snap=False)
             run.solve()
             runs.append(run)
     return runs
